@@ -346,15 +346,28 @@ Definition program_limits (nglobals ngarrays nnums nstrs nregexes nnatives : Z) 
 
 (* ---- one-byte RS: the only MustCompile on run-time data (interp.go setSpecial V_RS) ---- *)
 
-(* regexp.MustCompile(regexp.QuoteMeta(rs)) for len(rs) <= 1: QuoteMeta escapes ASCII
-   metacharacters only and the regexp parser rejects invalid UTF-8, so the call panics
-   exactly when the single byte is not ASCII. *)
+(* For len(rs) <= 1 setSpecial first tests utf8.ValidString(rs): a single byte that is not ASCII
+   is not valid UTF-8 and the regex compilation is skipped (byteSplitter needs no regex);
+   otherwise regexp.MustCompile(regexp.QuoteMeta(rs)) runs.  QuoteMeta escapes ASCII
+   metacharacters only and the regexp parser rejects exactly invalid UTF-8, so that call would
+   panic exactly on a non-ASCII byte ([must_compile_quoted]). *)
 Inductive rs_outcome : Type := RsOk | RsError | RsPanic.
+
+Definition valid_utf8_short (rs : bytes) : bool :=
+  match rs with
+  | [] => true
+  | [b] => (0 <=? b) && (b <? 128)
+  | _ => false
+  end.
+
+(* regexp.MustCompile(regexp.QuoteMeta(rs)) for len(rs) <= 1 *)
+Definition must_compile_quoted (rs : bytes) : rs_outcome :=
+  if valid_utf8_short rs then RsOk else RsPanic.
 
 Definition set_rs_short (rs : bytes) : rs_outcome :=
   match rs with
-  | [] => RsOk
-  | [b] => if (0 <=? b) && (b <? 128) then RsOk else RsPanic
+  | [] | [_] => if negb (valid_utf8_short rs) then RsOk       (* break: no regex *)
+                else must_compile_quoted rs
   | _ => RsError      (* not this branch *)
   end.
 
